@@ -4,8 +4,19 @@ class-level __providedBy__."""
 import gc
 
 
+class Res(tuple):
+    """an adapter: ("res", factory id, object ids); falsy for every third factory (a legal adapter may be falsy)"""
+
+    def __bool__(self):
+        return self[1] % 3 != 0
+
+
 class V:
-    """registered value: identity `i`, equality class `e`; as a factory returns None iff i % 4 == 0"""
+    """registered value: identity `i`, equality class `e`; as a factory returns None iff i % 4 == 0.
+    Every fifth value is falsy (an empty-container-like component is a legal registration)."""
+
+    def __bool__(self):
+        return self.i % 5 != 0
 
     def __init__(self, i, e, inv):
         self.i = i
@@ -24,7 +35,7 @@ class V:
     def __call__(self, *objs):
         if self.i % 4 == 0:
             return None
-        return ("res", self.i, tuple(self.inv.get(id(o), "?") for o in objs))
+        return Res(("res", self.i, tuple(self.inv.get(id(o), "?") for o in objs)))
 
 
 def run(lines, out, args):
@@ -61,7 +72,7 @@ def run(lines, out, args):
         return "N" if x is None else "?"
 
     def vi(x):
-        return "N" if x is None else str(x.i)
+        return "N" if x is None else str(x.i) if isinstance(x, V) else "other:%r" % (x,)
 
     for line in lines:
         f = line.split("|")
@@ -132,7 +143,7 @@ def run(lines, out, args):
                     r = reg.queryMultiAdapter(obs, p, nm, default)
                 if r is default:
                     got = "default"
-                elif isinstance(r, tuple) and r and r[0] == "res":
+                elif isinstance(r, Res):
                     got = "res %d %s" % (r[1], " ".join(map(str, r[2])))
                 else:
                     got = "other %r" % (r,)
@@ -140,7 +151,7 @@ def run(lines, out, args):
                 reg = st["regs"][int(f[1])]
                 obs = [st["objs"][o] for o in ints(f[2])]
                 r = reg.subscribers(obs, None if f[3] == "N" else st["nodes"][int(f[3])])
-                got = " ".join(str(x[1]) for x in r)
+                got = " ".join(str(x[1]) if isinstance(x, Res) else "other:%r" % (x,) for x in r)
             elif op == "registered":
                 got = vi(st["regs"][int(f[1])].registered(req(f[2]), st["nodes"][int(f[3])], f[4]))
             elif op == "subscribed":
